@@ -27,6 +27,8 @@ pub enum Wl {
     W0,
     /// server-to-client uni stream 5000 bytes plus client-to-server 3000
     W8,
+    /// empty and one-byte streams (FIN-only frames), both directions
+    W9,
 }
 
 pub fn plans(w: Wl, read: ReadMode) -> (Plan, Plan) {
@@ -59,6 +61,11 @@ pub fn plans(w: Wl, read: ReadMode) -> (Plan, Plan) {
             s.datagrams = vec![20, 900];
         }
         Wl::W6 => c.streams = vec![uni(60_000, 8000)],
+        Wl::W9 => {
+            c.streams = vec![uni(0, 1), uni(1, 1), bi(0, 1), uni(1300, 1300)];
+            s.echo_len = Some(0);
+            s.streams = vec![uni(0, 1)];
+        }
         Wl::W8 => {
             c.streams = vec![uni(3000, 1000)];
             s.streams = vec![uni(5000, 1300)];
@@ -352,4 +359,128 @@ pub fn cfg_list(full: bool) -> Vec<PairCfg> {
         }));
     }
     v
+}
+
+/// Operations a check can interleave with the run at a given step index
+#[derive(Debug, Clone, PartialEq)]
+pub enum Op {
+    KeyUpdate(usize),
+    Ping(usize),
+    SetRecvWindow(usize, u64),
+    SetSendWindow(usize, u64),
+    SetMaxStreams(usize, Dir, u64),
+    PathChanged(usize),
+    LocalAddrChanged(usize),
+    Close(usize, u32),
+    LinkMtu(usize),
+    Blackhole(usize),
+    /// Rewrite the source address of everything the node emits from now on
+    Rebind(usize, std::net::SocketAddr),
+    /// Spurious driver calls
+    SpuriousTimeout(usize),
+    SpuriousPollTransmit(usize),
+    MaxDatagrams(usize),
+}
+
+pub fn apply_op(p: &mut StdPair, op: &Op) {
+    use proto::VarInt;
+    let now = p.w.now();
+    let chs = [p.sch(), Some(p.cch)];
+    let node_conn = |p: &mut StdPair, node: usize| -> Option<proto::ConnectionHandle> {
+        let ch = chs[node]?;
+        p.w.nodes[node].conns.contains_key(&ch).then_some(ch)
+    };
+    match op {
+        Op::LinkMtu(m) => {
+            p.w.link_mtu = *m;
+            return;
+        }
+        Op::Blackhole(n) => {
+            p.w.blackhole[*n] = true;
+            return;
+        }
+        Op::Rebind(n, a) => {
+            let from = p.w.emitted;
+            p.w.src_rewrite.push((*n, from, *a));
+            return;
+        }
+        Op::MaxDatagrams(n) => {
+            p.w.max_datagrams = *n;
+            return;
+        }
+        _ => {}
+    }
+    let node = match op {
+        Op::KeyUpdate(n) | Op::Ping(n) | Op::SetRecvWindow(n, _) | Op::SetSendWindow(n, _)
+        | Op::SetMaxStreams(n, _, _) | Op::PathChanged(n) | Op::LocalAddrChanged(n)
+        | Op::Close(n, _) | Op::SpuriousTimeout(n) | Op::SpuriousPollTransmit(n) => *n,
+        _ => unreachable!(),
+    };
+    let Some(ch) = node_conn(p, node) else { return };
+    {
+        let conn = &mut p.w.nodes[node].conns.get_mut(&ch).unwrap().conn;
+        match op {
+            Op::KeyUpdate(_) => conn.force_key_update(),
+            Op::Ping(_) => conn.ping(),
+            Op::SetRecvWindow(_, w) => conn.set_receive_window(VarInt::from_u64(*w).unwrap()),
+            Op::SetSendWindow(_, w) => conn.set_send_window(*w),
+            Op::SetMaxStreams(_, d, c) => conn.set_max_concurrent_streams(*d, VarInt::from_u64(*c).unwrap()),
+            Op::PathChanged(_) => conn.path_changed(now),
+            Op::LocalAddrChanged(_) => conn.local_address_changed(),
+            Op::Close(_, code) => conn.close(now, VarInt::from_u32(*code), bytes::Bytes::from_static(b"bye")),
+            Op::SpuriousTimeout(_) => conn.handle_timeout(now),
+            Op::SpuriousPollTransmit(_) => {}
+            _ => {}
+        }
+    }
+    p.w.settle_conn(node, ch);
+}
+
+/// Run the pair until the workload is done (or a bound), applying scripted operations when
+/// the step counter reaches their index. Returns true if the workload completed.
+pub fn drive(p: &mut StdPair, script: &[(u64, Op)], max_steps: u64, horizon: Duration) -> bool {
+    let mut next = 0;
+    let mut script: Vec<(u64, Op)> = script.to_vec();
+    script.sort_by_key(|x| x.0);
+    loop {
+        while next < script.len() && script[next].0 <= p.w.steps {
+            let op = script[next].1.clone();
+            apply_op(p, &op);
+            next += 1;
+        }
+        if p.w.steps % 4 == 0 && next >= script.len() && workload_done(p) {
+            return true;
+        }
+        if p.w.steps >= max_steps {
+            return workload_done(p);
+        }
+        match p.w.next_event() {
+            None => return workload_done(p),
+            Some((at, _)) if at > horizon => return workload_done(p),
+            _ => {}
+        }
+        p.w.step();
+    }
+}
+
+pub fn wl_from_str(s: &str) -> Wl {
+    match s {
+        "W0" => Wl::W0,
+        "W1" => Wl::W1,
+        "W2" => Wl::W2,
+        "W3" => Wl::W3,
+        "W4" => Wl::W4,
+        "W5" => Wl::W5,
+        "W6" => Wl::W6,
+        "W8" => Wl::W8,
+        "W9" => Wl::W9,
+        _ => crate::report::machinery(&format!("unknown workload {s}")),
+    }
+}
+
+pub fn cfg_by_name(name: &str) -> PairCfg {
+    cfg_list(true)
+        .into_iter()
+        .find(|c| c.client.name == name)
+        .unwrap_or_else(|| crate::report::machinery(&format!("unknown cfg {name}")))
 }
